@@ -37,7 +37,7 @@ class Gap(Exception):
 
 
 # ---- tables --------------------------------------------------------------------------------------------------------
-SIGNATURE = 'epoch_s0, epoch_samples, info, target, fs=None, auto_send=False'
+SIGNATURE = ['epoch_s0', 'epoch_samples', 'info', 'target', 'fs', 'auto_send']       # positional parameters, in order
 COROUTINE_DEF = ("def coroutine(func):\n\n    def start(*args, **kwargs):\n        cr = func(*args, **kwargs)\n"
                  "        next(cr)\n        return cr\n    return start")          # docstring removed
 # Coq types of the variables that may be part of the state (anything else in the state raises)
@@ -59,6 +59,8 @@ PINNED = {
 # target(<this call>) is the "missed" stub: an empty PipelineData that carries s0 and the request's metadata
 MISSED_FUNC, MISSED_ARGS, MISSED_KW = 'PipelineData', ['[]'], {'fs': 'fs'}      # + s0=<int expr>, metadata=<name>
 BINOPS = {ast.Add: '+', ast.Sub: '-', ast.Mult: '*'}       # no // or % in this coroutine: not covered (Z.div by 0 differs)
+PAIR_VARS = {'oldest_samples'}          # locals that hold a (start sample, chunk) pair: x[0] = fst, x[1] = snd
+HEAD_LISTS = {'prior_samples'}          # lists read with l[0] / shortened with l.pop(0)
 CMPOPS = {ast.Lt: '<?', ast.LtE: '<=?', ast.Gt: '>?', ast.GtE: '>=?', ast.Eq: '=?'}
 
 
@@ -77,6 +79,11 @@ def expr(n, env, notes):
         return ('int', n.value)
     if isinstance(n, ast.List) and not n.elts:
         return ('nil',)
+    if isinstance(n, ast.Tuple) and len(n.elts) == 2:
+        return ('pair', expr(n.elts[0], env, notes), expr(n.elts[1], env, notes))
+    if isinstance(n, ast.Subscript) and _is_name(n.value) and n.value.id in PAIR_VARS \
+            and isinstance(n.slice, ast.Constant) and n.slice.value in (0, 1) and type(n.slice.value) is int:
+        return ('fst' if n.slice.value == 0 else 'snd', expr(n.value, env, notes))
     if isinstance(n, ast.BinOp) and type(n.op) in BINOPS:
         return ('bin', BINOPS[type(n.op)], expr(n.left, env, notes), expr(n.right, env, notes))
     if isinstance(n, ast.UnaryOp) and isinstance(n.op, ast.USub):
@@ -141,7 +148,7 @@ def _target_call(st, env, notes):
     raise Gap(f'line {st.lineno}: target call `{ast.unparse(st)}` not covered')
 
 
-def block(stmts, env, out, state, notes, in_loop):
+def block(stmts, env, out, state, notes, mode):
     """statement list (+ what follows it: nothing) -> IR tree.  env: names bound here; out: output recorded so far."""
     if not stmts:
         return ('end', out, False)
@@ -152,36 +159,45 @@ def block(stmts, env, out, state, notes, in_loop):
         notes.add(f'pinned: `{text.splitlines()[0]}{" ..." if chr(10) in text else ""}` -> '
                   + ('dropped' if act is None else f'{act[0]} := {act[1][1]}'))
         if act is None:
-            return block(rest, env, out, state, notes, in_loop)
+            return block(rest, env, out, state, notes, mode)
         if act[1][1] not in env:
             raise Gap(f'line {st.lineno}: pinned statement reads `{act[1][1]}` before it is assigned')
-        return ('let', act[0], act[1], block(rest, env | {act[0]}, out, state, notes, in_loop))
+        return ('let', act[0], act[1], block(rest, env | {act[0]}, out, state, notes, mode))
     if isinstance(st, ast.Expr) and isinstance(st.value, ast.Constant) and isinstance(st.value.value, str):
-        return block(rest, env, out, state, notes, in_loop)              # a docstring / bare string
+        return block(rest, env, out, state, notes, mode)              # a docstring / bare string
+    if mode == 'xloop' and isinstance(st, ast.Assign) and len(st.targets) == 1 and isinstance(st.targets[0], ast.Name) \
+            and isinstance(st.value, ast.Subscript) and _is_name(st.value.value) and st.value.value.id in HEAD_LISTS \
+            and ast.unparse(st.value.slice) == '0':
+        x, l = st.targets[0].id, expr(st.value.value, env, notes)          # x = l[0]: IndexError on an empty list
+        return ('let_head', x, l, block(rest, env | {x}, out, state, notes, mode))
+    if mode == 'xloop' and isinstance(st, ast.Expr) and ast.unparse(st) in [f'{l}.pop(0)' for l in HEAD_LISTS]:
+        l = st.value.func.value.id                                          # l.pop(0): IndexError on an empty list
+        expr(st.value.func.value, env, notes)
+        return ('let_pop0', l, block(rest, env, out, state, notes, mode))
     if isinstance(st, ast.Assign) and len(st.targets) == 1 and isinstance(st.targets[0], ast.Name):
         x = st.targets[0].id
-        return ('let', x, expr(st.value, env, notes), block(rest, env | {x}, out, state, notes, in_loop))
+        return ('let', x, expr(st.value, env, notes), block(rest, env | {x}, out, state, notes, mode))
     if isinstance(st, ast.AugAssign) and isinstance(st.target, ast.Name) and type(st.op) in BINOPS:
         x = st.target.id
         e = ('bin', BINOPS[type(st.op)], expr(st.target, env, notes), expr(st.value, env, notes))
-        return ('let', x, e, block(rest, env, out, state, notes, in_loop))
+        return ('let', x, e, block(rest, env, out, state, notes, mode))
     if isinstance(st, ast.Expr) and isinstance(st.value, ast.Call):
         c = st.value
         if isinstance(c.func, ast.Attribute) and c.func.attr == 'append' and isinstance(c.func.value, ast.Name) \
                 and len(c.args) == 1 and not c.keywords:
             x = c.func.value.id
             e = ('snoc', expr(c.func.value, env, notes), expr(c.args[0], env, notes))
-            return ('let', x, e, block(rest, env, out, state, notes, in_loop))
-        if _is_name(c.func, 'target') and in_loop:
+            return ('let', x, e, block(rest, env, out, state, notes, mode))
+        if _is_name(c.func, 'target') and mode == 'step':
             if out is not None:
                 raise Gap(f'line {st.lineno}: a second target(...) call on one path')
             o = _target_call(st, env, notes)
-            return ('out', o, block(rest, env, o[0], state, notes, in_loop))
+            return ('out', o, block(rest, env, o[0], state, notes, mode))
     if isinstance(st, ast.If):
         c = cond(st.test, env, notes)
-        return ('if', c, block(st.body + rest, env, out, state, notes, in_loop),
-                block(st.orelse + rest, env, out, state, notes, in_loop))
-    if isinstance(st, ast.Break) and in_loop:
+        return ('if', c, block(st.body + rest, env, out, state, notes, mode),
+                block(st.orelse + rest, env, out, state, notes, mode))
+    if isinstance(st, ast.Break) and mode in ('step', 'xloop'):
         return ('end', out, True)
     raise Gap(f'line {st.lineno}: statement `{text.splitlines()[0]}` not covered')
 
@@ -204,8 +220,9 @@ def _function(tree):
     f = funcs[0]
     if [ast.unparse(d) for d in f.decorator_list] != ['coroutine']:
         raise Gap(f'decorators of {FUNC}: {[ast.unparse(d) for d in f.decorator_list]}')
-    if ast.unparse(f.args) != SIGNATURE:
-        raise Gap(f'signature of {FUNC} is `{ast.unparse(f.args)}`, pinned `{SIGNATURE}`')
+    a = f.args
+    if [x.arg for x in a.args] != SIGNATURE or a.posonlyargs or a.kwonlyargs or a.vararg or a.kwarg:
+        raise Gap(f'signature of {FUNC} is `{ast.unparse(f.args)}`, pinned {SIGNATURE}')
     return f
 
 
@@ -229,10 +246,12 @@ def translate_source(src):
     params = [a.arg for a in f.args.args if a.arg not in NON_STATE_PARAMS]
     defaults = {a.arg: d for a, d in zip(f.args.args[len(f.args.args) - len(f.args.defaults):], f.args.defaults)
                 if a.arg not in NON_STATE_PARAMS}
+    if [ast.unparse(d) for d in f.args.defaults][:-len(defaults) or None] != ['None'] or list(defaults) != ['auto_send']:
+        raise Gap(f'defaults of {FUNC}: `{ast.unparse(f.args)}`')
     for k, d in defaults.items():
         if not (isinstance(d, ast.Constant) and type(d.value) is bool):
             raise Gap(f'default of {k} is not a bool constant')
-    init = block(pre, set(params), None, None, notes, False)
+    init = block(pre, set(params), None, None, notes, 'init')
     state = list(params)
 
     def assigned(t):
@@ -246,7 +265,7 @@ def translate_source(src):
     for v in state:
         if v not in VAR_TYPES:
             raise Gap(f'state variable `{v}` has no type in the table')
-    step = block(loop[1:], set(state) | {'slb', 'data'}, None, state, notes, True)
+    step = block(loop[1:], set(state) | {'slb', 'data'}, None, state, notes, 'step')
     return {'state': state, 'params': params, 'defaults': {k: d.value for k, d in defaults.items()},
             'init': init, 'step': step, 'notes': sorted(notes), 'lines': (f.lineno, f.end_lineno)}
 
@@ -276,6 +295,10 @@ def coq_expr(e):
         return f'(py_slice (Some {coq_expr(e[2])}) (Some {coq_expr(e[3])}) {coq_expr(e[1])})'
     if k == 'snoc':
         return f'({coq_expr(e[1])} ++ [{coq_expr(e[2])}])'
+    if k == 'pair':
+        return f'({coq_expr(e[1])}, {coq_expr(e[2])})'
+    if k in ('fst', 'snd'):
+        return f'({k} {coq_expr(e[1])})'
     if k == 'cmp':
         return f'({coq_expr(e[2])} {e[1]} {coq_expr(e[3])})'
     if k == 'not':
@@ -285,20 +308,29 @@ def coq_expr(e):
     raise Gap(f'printer: {k}')
 
 
-def coq_tree(t, state, ind, is_step):
+def coq_tree(t, state, ind, mode):
+    """mode 'init': the state record; 'step': (state, output, finished); 'xloop': Some (variables, finished) | None"""
     p = ' ' * ind
     if t[0] == 'let':
-        return f'{p}let {t[1]} := {coq_expr(t[2])} in\n' + coq_tree(t[3], state, ind, is_step)
-    if t[0] == 'out':
+        return f'{p}let {t[1]} := {coq_expr(t[2])} in\n' + coq_tree(t[3], state, ind, mode)
+    if t[0] == 'let_head' and mode == 'xloop':
+        return (f'{p}match {coq_expr(t[2])} with\n{p}| [] => None\n{p}| {t[1]} :: _ =>\n'
+                + coq_tree(t[3], state, ind + 2, mode) + f'\n{p}end')
+    if t[0] == 'let_pop0' and mode == 'xloop':
+        return (f'{p}match {t[1]} with\n{p}| [] => None\n{p}| _ :: {t[1]} =>\n'
+                + coq_tree(t[2], state, ind + 2, mode) + f'\n{p}end')
+    if t[0] == 'out' and mode == 'step':
         o = t[1]
         rhs = f'OTarget {coq_expr(o[1])}' if o[0] == 'data' else f'OMissed {coq_expr(o[1])} {coq_expr(o[2])}'
-        return f'{p}let out_ := {rhs} in\n' + coq_tree(t[2], state, ind, is_step)
+        return f'{p}let out_ := {rhs} in\n' + coq_tree(t[2], state, ind, mode)
     if t[0] == 'if':
-        return (f'{p}if {coq_expr(t[1])} then\n' + coq_tree(t[2], state, ind + 2, is_step) + f'\n{p}else\n'
-                + coq_tree(t[3], state, ind + 2, is_step))
+        return (f'{p}if {coq_expr(t[1])} then\n' + coq_tree(t[2], state, ind + 2, mode) + f'\n{p}else\n'
+                + coq_tree(t[3], state, ind + 2, mode))
     if t[0] == 'end':
+        if mode == 'xloop':
+            return f'{p}Some ({", ".join(state)}, {"true" if t[2] else "false"})'
         st = f'mk_ce_state {" ".join(state)}'
-        if not is_step:
+        if mode == 'init':
             return f'{p}{st}'
         return f'{p}({st}, {"Some out_" if t[1] else "None"}, {"true" if t[2] else "false"})'
     raise Gap(f'printer: {t[0]}')
@@ -318,12 +350,12 @@ def coq_text(tr, header=''):
            '(* the locals of the coroutine that live from one send to the next *)',
            f'Record ce_state := mk_ce_state {{ {fields} }}.', '',
            '(* the statements before `while True:` *)',
-           f'Definition {PREFIX}_init {args} : ce_state :=', coq_tree(tr['init'], state, 2, False) + '.', '']
+           f'Definition {PREFIX}_init {args} : ce_state :=', coq_tree(tr['init'], state, 2, 'init') + '.', '']
     for k, v in tr['defaults'].items():
         out += [f'Definition {PREFIX}_default_{k} : bool := {"true" if v else "false"}.']
     out += ['', '(* one `slb, data = (yield)` iteration: new state, what target received (if called), whether `break` was reached *)',
             f'Definition {PREFIX}_step (st_ : ce_state) (slb : Z) (data : list Z) : ce_state * option ce_out * bool :=',
-            unpack + coq_tree(tr['step'], state, 2, True) + '.', '']
+            unpack + coq_tree(tr['step'], state, 2, 'step') + '.', '']
     return '\n'.join(out)
 
 
@@ -360,6 +392,10 @@ def ev(e, env):
         return _py_slice(ev(e[1], env), ev(e[2], env), ev(e[3], env))
     if k == 'snoc':
         return ev(e[1], env) + [ev(e[2], env)]
+    if k == 'pair':
+        return (ev(e[1], env), ev(e[2], env))
+    if k in ('fst', 'snd'):
+        return ev(e[1], env)[0 if k == 'fst' else 1]
     if k == 'cmp':
         a, b = ev(e[2], env), ev(e[3], env)
         return {'<?': a < b, '<=?': a <= b, '>?': a > b, '>=?': a >= b, '=?': a == b}[e[1]]
@@ -384,6 +420,17 @@ def run_tree(t, env, state):
             t = t[2]
         elif t[0] == 'if':
             t = t[2] if ev(t[1], env) else t[3]
+        elif t[0] == 'let_head':
+            l = ev(t[2], env)
+            if not l:
+                return None                              # IndexError
+            env[t[1]] = l[0]
+            t = t[3]
+        elif t[0] == 'let_pop0':
+            if not env[t[1]]:
+                return None
+            env[t[1]] = env[t[1]][1:]
+            t = t[2]
         else:
             return {v: env[v] for v in state}, (out if t[1] else None), t[2]
 
@@ -484,25 +531,309 @@ def examples(tr, ex, limit=30):
     return out
 
 
+# ======================================================================================================================
+# extract_epochs: the SLICE of its loop body that maintains tlb / prior_samples (the look-back buffer), and the call that
+# creates a capture.  Statements of the loop body that do not mention tlb, prior_samples, buffer_samples or data are not
+# part of the slice (listed in the notes); statements that only READ them must be one of XREADS; anything else raises.
+XFUNC = 'extract_epochs'
+XVARS = ['tlb', 'prior_samples', 'buffer_samples']
+XTYPES = {'tlb': 'Z', 'prior_samples': 'list (Z * list Z)', 'buffer_samples': 'Z', 'data': 'list Z'}
+XPRE = {'tlb = 0': ('tlb', ('int', 0)), 'prior_samples = []': ('prior_samples', ('nil',)),
+        # float conversion: an input of the slice (the harness computes B with this very expression)
+        'buffer_samples = round(buffer_size * fs)': None}
+XREADS = {'epoch_coroutine.send((tlb, data))', 'for prior_sample in prior_samples:\n    epoch_coroutine.send(prior_sample)'}
+# the float conversions of a request, pinned (the harness computes lo and n with these very expressions), and the call
+XCONVERSIONS = ["info['epoch_size'] = epoch_size if epoch_size is not None else info['duration']",
+                "total_epoch_size = info['epoch_size'] + poststim_time + prestim_time",
+                'epoch_samples = round(total_epoch_size * fs)',
+                "t0 = round((info['t0'] - prestim_time) * fs)",
+                'epoch_coroutine = capture_epoch(t0, epoch_samples, info, epochs.append, fs)']
+XCALL_NON_STATE = {'target': 'epochs.append', 'fs': 'fs'}
+
+
+def _parents(root):
+    par = {}
+    for n in ast.walk(root):
+        for c in ast.iter_child_nodes(n):
+            par[c] = n
+    return par
+
+
+def _flow_ok(st, depth=0):
+    """no return / yield, and no break / continue that would leave or restart the OUTER loop"""
+    depth += isinstance(st, (ast.While, ast.For))
+    for c in ast.iter_child_nodes(st):
+        if isinstance(c, (ast.Return, ast.Yield, ast.YieldFrom, ast.Await, ast.FunctionDef, ast.Lambda, ast.Global, ast.Nonlocal)):
+            raise Gap(f'line {c.lineno}: `{type(c).__name__}` in the loop of {XFUNC}')
+        if isinstance(c, (ast.Break, ast.Continue)) and depth == 0:
+            raise Gap(f'line {c.lineno}: `{type(c).__name__.lower()}` of the outer loop of {XFUNC}')
+        _flow_ok(c, depth)
+
+
+def _read_only(st, par):
+    for n in ast.walk(st):
+        if isinstance(n, ast.Name) and n.id in XTYPES:
+            if not isinstance(n.ctx, ast.Load):
+                raise Gap(f'line {n.lineno}: `{n.id}` is written by a statement that is not covered')
+            a = n
+            while not isinstance(a, ast.stmt):
+                a = par[a]
+            if ast.unparse(a) not in XREADS:
+                raise Gap(f'line {n.lineno}: use of `{n.id}` in `{ast.unparse(a).splitlines()[0]}` not covered')
+
+
+def translate_extract(tree, notes):
+    fs_ = [n for n in tree.body if isinstance(n, ast.FunctionDef) and n.name == XFUNC]
+    if len(fs_) != 1 or [ast.unparse(d) for d in fs_[0].decorator_list] != ['coroutine']:
+        raise Gap(f'{XFUNC}: not exactly one top-level @coroutine definition')
+    f = fs_[0]
+    par = _parents(f)
+    body = [st for st in f.body if not (isinstance(st, ast.Expr) and isinstance(st.value, ast.Constant))]
+    if not body or not isinstance(body[-1], ast.While) or ast.unparse(body[-1].test) != 'True' or body[-1].orelse:
+        raise Gap(f'{XFUNC} does not end with `while True:`')
+    pre, loop = body[:-1], body[-1].body
+    if not loop or ast.unparse(loop[0]) != 'data = (yield)':
+        raise Gap(f'the loop of {XFUNC} does not start with `data = (yield)`')
+    if any(a.arg in XTYPES for a in f.args.args + f.args.kwonlyargs):
+        raise Gap(f'a parameter of {XFUNC} is called like a variable of the slice')
+    init = {}
+    for st in pre:
+        text = ast.unparse(st)
+        if text in XPRE:
+            if text in init:
+                raise Gap(f'line {st.lineno}: `{text}` twice')
+            init[text] = XPRE[text]
+        elif any(isinstance(n, ast.Name) and n.id in XTYPES for n in ast.walk(st)):
+            raise Gap(f'line {st.lineno}: `{text.splitlines()[0]}` before the loop of {XFUNC} not covered')
+        _flow_ok(st)
+    if set(init) != set(XPRE):
+        raise Gap(f'{XFUNC}: initialisation {sorted(set(XPRE) - set(init))} not found')
+    items, skipped, env = [], [], set(XVARS) | {'data'}
+    for st in loop[1:]:
+        if isinstance(st, (ast.Break, ast.Continue, ast.Return)):
+            raise Gap(f'line {st.lineno}: the outer loop of {XFUNC} is left')
+        if not any(isinstance(n, ast.Name) and n.id in XTYPES for n in ast.walk(st)):
+            _flow_ok(st)
+            skipped.append(st.lineno)
+            continue
+        if isinstance(st, ast.While) and ast.unparse(st.test) == 'True' and not st.orelse:
+            lt = block(st.body, set(XVARS), None, None, notes, 'xloop')
+            items.append(('loop', lt, st.lineno))
+            continue
+        try:
+            t = block([st], env, None, None, notes, 'init')
+        except Gap:
+            t = None
+        if t is not None and t[0] == 'let' and t[3] == ('end', None, False) and t[1] in ('tlb', 'prior_samples'):
+            items.append(('let', t[1], t[2], st.lineno))
+            continue
+        _read_only(st, par)
+        _flow_ok(st)
+        skipped.append(st.lineno)
+    loops = [i for i in items if i[0] == 'loop']
+    if len(loops) != 1:
+        raise Gap(f'{XFUNC}: {len(loops)} `while True:` loops over the look-back buffer')
+
+    def written(t, acc):
+        if t[0] in ('let', 'let_head'):
+            acc.add(t[1]); written(t[3], acc)
+        elif t[0] == 'let_pop0':
+            acc.add(t[1]); written(t[2], acc)
+        elif t[0] == 'if':
+            written(t[2], acc); written(t[3], acc)
+        return acc
+    lvars = [v for v in XVARS if v in written(loops[0][1], set())]
+    if lvars != ['prior_samples']:
+        raise Gap(f'{XFUNC}: the pruning loop writes {lvars}')
+    # the creation of a capture
+    calls = [n for n in ast.walk(f) if isinstance(n, ast.Call) and _is_name(n.func, FUNC)]
+    if len(calls) != 1:
+        raise Gap(f'{XFUNC}: {len(calls)} calls of {FUNC}')
+    a = calls[0]
+    while not isinstance(a, ast.stmt):
+        a = par[a]
+    blk = [x for fld in ('body', 'orelse') for x in getattr(par[a], fld, []) if isinstance(x, ast.stmt)]
+    texts = [ast.unparse(x) for x in blk]
+    k = texts.index(ast.unparse(a)) if ast.unparse(a) in texts else -1
+    if texts[max(k - len(XCONVERSIONS) + 1, 0):k + 1] != XCONVERSIONS:
+        raise Gap(f'line {a.lineno}: the conversion of a request to samples / the {FUNC} call is not the pinned text')
+    names = SIGNATURE
+    call, cargs = calls[0], {}
+    if call.keywords or len(call.args) > len(names):
+        raise Gap(f'line {call.lineno}: call of {FUNC} not covered')
+    for nme, v in zip(names, call.args):
+        if nme in XCALL_NON_STATE:
+            if ast.unparse(v) != XCALL_NON_STATE[nme]:
+                raise Gap(f'line {call.lineno}: argument {nme} of {FUNC}')
+        elif not isinstance(v, ast.Name):
+            raise Gap(f'line {call.lineno}: argument {nme} of {FUNC} is not a name')
+        else:
+            cargs[nme] = v.id
+    notes.update(f'pinned: `{t}`' for t in list(XPRE)[2:] + XCONVERSIONS[:4])
+    notes.add(f'{XFUNC}: statements at lines {skipped} do not write tlb / prior_samples / buffer_samples / data: not in the slice')
+    return {'items': items, 'init': {v[0]: v[1] for v in init.values() if v}, 'call': cargs, 'lines': (f.lineno, f.end_lineno)}
+
+
+def coq_extract(xt, tr):
+    T = XTYPES
+    sig = ' '.join(f'({v} : {T[v]})' for v in XVARS)
+    out = ['(* ---- extract_epochs: look-back bookkeeping (the slice of the loop body over tlb, prior_samples) ---- *)']
+    for v, e in xt['init'].items():
+        out.append(f'Definition {XFUNC}_{v}0 : {T[v]} := {coq_expr(e)}.')
+    loop = [i for i in xt['items'] if i[0] == 'loop'][0]
+    out += ['', f'(* one pass of the `while True:` at line {loop[2]}: None = IndexError, else (prior_samples, `break` reached) *)',
+            f'Definition {XFUNC}_prune_body {sig} : option ({T["prior_samples"]} * bool) :=',
+            coq_tree(loop[1], ['prior_samples'], 2, 'xloop') + '.', '',
+            f'Fixpoint {XFUNC}_prune (fuel : nat) {sig} : option ({T["prior_samples"]}) :=',
+            '  match fuel with', '  | O => None',
+            f'  | S fuel => match {XFUNC}_prune_body {" ".join(XVARS)} with',
+            '              | None => None', '              | Some (prior_samples, true) => Some prior_samples',
+            f'              | Some (prior_samples, false) => {XFUNC}_prune fuel {" ".join(XVARS)}',
+            '              end', '  end.', '',
+            '(* what one send(data) does to tlb and prior_samples, in source order; None = the send raises IndexError there *)',
+            f'Definition {XFUNC}_lookback (fuel : nat) {sig} (data : {T["data"]}) : option (Z * {T["prior_samples"]}) :=']
+    close = 0
+    for it in xt['items']:
+        if it[0] == 'let':
+            out.append(f'  let {it[1]} := {coq_expr(it[2])} in')
+        else:
+            out.append(f'  match {XFUNC}_prune fuel {" ".join(XVARS)} with None => None | Some prior_samples =>')
+            close += 1
+    out.append('  Some (tlb, prior_samples)' + ' end' * close + '.')
+    pars = sorted(set(xt['call'].values()), key=list(xt['call'].values()).index)
+    args = [xt['call'].get(p, f'{PREFIX}_default_{p}') for p in tr['params']]
+    out += ['', f'(* {XCONVERSIONS[-1]} *)',
+            f'Definition {XFUNC}_new_capture ' + ' '.join(f'({p} : Z)' for p in pars) + ' : ce_state :=',
+            f'  {PREFIX}_init {" ".join(args)}.', '']
+    return '\n'.join(out)
+
+
+def run_lookback(xt, tlb, prior, B, data):
+    """the slice, evaluated independently: (tlb, prior_samples) after the send, or None"""
+    env = {'tlb': tlb, 'prior_samples': list(prior), 'buffer_samples': B, 'data': data}
+    for it in xt['items']:
+        if it[0] == 'let':
+            env[it[1]] = ev(it[2], env)
+            continue
+        for _ in range(len(env['prior_samples']) + 2):
+            r = run_tree(it[1], {v: env[v] for v in XVARS}, ['prior_samples'])
+            if r is None:
+                return None
+            env['prior_samples'] = r[0]['prior_samples']
+            if r[2]:
+                break
+        else:
+            return None
+    return env['tlb'], env['prior_samples']
+
+
+def selftest_extract(xt, mod, rng, count=25):
+    """the real extract_epochs, send by send: tlb / prior_samples of the suspended frame against the slice; the arguments
+    of the capture_epoch call against the pinned conversions"""
+    import collections
+    import logging
+    import numpy as np
+    logging.getLogger('psiaudio.pipeline').setLevel(logging.ERROR)
+    n_sends, ex, calls = 0, [], []
+    real_capture = mod.capture_epoch
+
+    def spy(*a, **kw):
+        calls.append((a, kw))
+        return real_capture(*a, **kw)
+    mod.capture_epoch = spy
+    try:
+        for trial in range(count):
+            fs = rng.choice([1000.0, 195312.5, 44100])
+            Bk = rng.choice([0, 0, 1, 3, 7, 12]) if trial else -2       # trial 0: a negative look-back (IndexError)
+            pre, post, size = rng.choice([0, 2, 1.3]) / fs, rng.choice([0, 1, 2.6]) / fs, rng.randint(0, 6) / fs
+            q = collections.deque()
+            got = []
+            ex_ = mod.extract_epochs(fs, q, size, got.append, buffer_size=Bk / fs, prestim_time=pre, poststim_time=post)
+            B = int(ex_.gi_frame.f_locals['buffer_samples'])
+            if B != round((Bk / fs) * fs):
+                raise Gap('self-test: buffer_samples is not round(buffer_size * fs)')
+            tlb, prior = xt_init(xt)
+            for j in range(rng.randint(2, 7)):
+                chunk = [rng.randint(0, 99) for _ in range(rng.randint(0, 6))]
+                if rng.random() < 0.5:
+                    info = {'t0': (tlb + rng.randint(-3, 8) + rng.choice([0, 0.3])) / fs, 'key': j}
+                    q.append(info)
+                    want = (round((info['t0'] - pre) * fs), round((size + post + pre) * fs))
+                else:
+                    want = None
+                k = len(calls)
+                try:
+                    ex_.send(np.array(chunk, dtype=np.int64))
+                    fl = ex_.gi_frame.f_locals
+                    real = (int(fl['tlb']), [(int(s), [int(v) for v in d]) for s, d in fl['prior_samples']])
+                except IndexError:
+                    real = None
+                except Exception:                            # e.g. epochs that cannot be stacked: not about the slice
+                    break
+                if want is not None and real is not None:
+                    a, kw = calls[k]
+                    if len(calls) != k + 1 or kw or (a[0], a[1]) != want or a[2] is not info or len(a) != 5:
+                        raise Gap(f'self-test: {FUNC} called with {a[:2]}, expected {want}')
+                mine = run_lookback(xt, tlb, prior, B, chunk)
+                n_sends += 1
+                if mine != real:
+                    raise Gap(f'self-test: {XFUNC} (B={B}) tlb={tlb} prior_samples={prior} send {chunk}: the code gives '
+                              f'{real}, the translation {mine}')
+                ex.append((tlb, prior, B, chunk, real))
+                if real is None:
+                    break
+                tlb, prior = real
+    finally:
+        mod.capture_epoch = real_capture
+    return n_sends, ex
+
+
+def xt_init(xt):
+    return ev(xt['init']['tlb'], {}), ev(xt['init']['prior_samples'], {})
+
+
+def examples_extract(ex, limit=12):
+    def zl(l):
+        return '[' + '; '.join(_z(x) for x in l) + ']'
+
+    def pl(p):
+        return '[' + '; '.join(f'({_z(s)}, {zl(d)})' for s, d in p) + ']'
+    out = []
+    ex = sorted(ex, key=lambda x: (x[4] is not None, -(len(x[1]) + 1 - len(x[4][1])) if x[4] else 0))   # raising, most pruned first
+    for tlb, prior, B, chunk, real in ex[:limit]:
+        r = 'None' if real is None else f'Some ({_z(real[0])}, {pl(real[1])})'
+        out.append(f'Example real_send_{len(out)} : {XFUNC}_lookback {len(prior) + 2} {_z(tlb)} {pl(prior)} {_z(B)} {zl(chunk)} = {r}.\n'
+                   'Proof. vm_compute. reflexivity. Qed.')
+    return out
+
+
 def translate(repo, rng=None):
     """-> (Coq text of coq/gen/CaptureGen.v, info dict).  Raises Gap (fail closed)."""
     import importlib
     import random
     path = os.path.join(repo, RELPATH)
     with open(path) as f:
-        tr = translate_source(f.read())
+        src = f.read()
+    tr = translate_source(src)
+    xnotes = set()
+    xt = translate_extract(ast.parse(src), xnotes)
     mod = importlib.import_module('psiaudio.pipeline')
     if os.path.realpath(mod.__file__) != os.path.realpath(path):
         raise Gap(f'self-test would run {mod.__file__}, not {path}')
     n_steps, ex = selftest(tr, mod, rng or random.Random(5))
+    n_sends, xex = selftest_extract(xt, mod, random.Random(6))
     head = (f'(* GENERATED on every run by translate/pycapture2coq.py from {path}\n'
             f'   (coroutine {FUNC}, lines {tr["lines"][0]}-{tr["lines"][1]}) - do not edit.\n'
-            + ''.join(f'   {n}\n' for n in tr['notes']) + '*)')
+            + ''.join('   ' + n.replace('"', "'").replace('(*', '( *').replace('*)', '* )') + '\n'
+                      for n in tr['notes'] + sorted(xnotes)) + '*)')
     text = coq_text(tr, head)
     text += ('\n(* runs of the real coroutine (NumPy int64 chunks), send by send: state of the suspended frame, what target\n'
              '   received, StopIteration - checked here against the text above *)\n' + '\n'.join(examples(tr, ex)) + '\n')
+    text += ('\n' + coq_extract(xt, tr) + '\n(* sends of the real extract_epochs: tlb, prior_samples of the suspended frame before / after *)\n'
+             + '\n'.join(examples_extract(xex)) + '\n')
     return text, {'function': FUNC, 'lines': tr['lines'], 'state': tr['state'], 'notes': tr['notes'],
-                  'selftest_steps': n_steps}
+                  'selftest_steps': n_steps, 'extract_lines': xt['lines'], 'extract_notes': sorted(xnotes),
+                  'selftest_sends': n_sends}
 
 
 if __name__ == '__main__':
